@@ -607,8 +607,8 @@ struct ttx_page_stat {
 	uint8_t				max_subpages;
 
 	/** Subpage numbers actually received (0x00 ... 0x79). */
-	uint8_t				subno_min;
-	uint8_t				subno_max;
+	uint16_t			subno_min;
+	uint16_t			subno_max;
 };
 
 #endif /* VT_H */
